@@ -299,11 +299,12 @@ def run(ctx, replay):
         for cfg, (h, e) in ex.map(work, list(enumerate(CFGS))):
             R.total_h += h
             R.total_e += e
-    if not quick:
-        # a universe larger than the server's enumerate cap (10000): blobs injected behind the server's back
-        h, e = R.run_cfg(("memory", "memory"), {"big": {"univ": "tiny", "n": 10050, "direct": 1}}, ctx.seed, "huge", bign=10050)
-        R.total_h += h
-        R.total_e += e
+    # a universe larger than pkg/client's page size (1000) and, in the thorough tier, than the server's enumerate
+    # cap (10000): blobs injected behind the server's back, read through both clients
+    hn = 1100 if quick else 10050
+    h, e = R.run_cfg(("memory", "memory"), {"big": {"univ": "tiny", "n": hn, "direct": 1}}, ctx.seed, "huge", bign=hn)
+    R.total_h += h
+    R.total_e += e
     ctx.count("G", replayed_histories=R.total_h, events=R.total_e, configurations=len(CFGS))
     ctx.cov["traces_validated_against_impl"] = R.total_h
     ctx.cov["evaluations"] = R.total_e
